@@ -61,7 +61,8 @@ theorem passing_helpers_shape :
 /-! ### `service.go` -/
 
 /-- `checksWithTagPrefix` (p0 prefix, p1 checks, v0 result, v1 element, v2 tag): serf / node-maintenance /
-`_service_maintenance…` checks are appended unconditionally, any other check once if one of its tags has the prefix -/
+`_service_maintenance…` checks are appended unconditionally, any other check once if one of its tags, trimmed as
+`routecmd.build` trims it (repair of D27), has the prefix -/
 theorem filter_shape :
     Generated.C01.checksWithTagPrefixActions =
       ["range p1",
@@ -69,8 +70,8 @@ theorem filter_shape :
        "> \"serfHealth\" != v1.CheckID & \"_node_maintenance\" == v1.CheckID => v0 = append(v0, v1)",
        "> \"serfHealth\" != v1.CheckID & \"_node_maintenance\" != v1.CheckID & strings.HasPrefix(v1.CheckID, \"_service_maintenance\") => v0 = append(v0, v1)",
        "> \"serfHealth\" != v1.CheckID & \"_node_maintenance\" != v1.CheckID & !(strings.HasPrefix(v1.CheckID, \"_service_maintenance\")) => range v1.ServiceTags",
-       ">> strings.HasPrefix(v2, p0) => v0 = append(v0, v1)",
-       ">> strings.HasPrefix(v2, p0) => break",
+       ">> strings.HasPrefix(strings.TrimSpace(v2), p0) => v0 = append(v0, v1)",
+       ">> strings.HasPrefix(strings.TrimSpace(v2), p0) => break",
        "return v0"] := by
   repeat' apply And.intro
   all_goals first | rfl | decide
